@@ -48,7 +48,7 @@ def refsOf : Cell → List Nat
   | .dict items => items.filterMap (fun kv => match kv.2 with | .addr x => some x | _ => none)
   | .list items => items.filterMap (fun r => match r with | .addr x => some x | _ => none)
   | .sv _ b d => [b, d]
-  | .cov _ _ orb _ => [orb]
+  | .cov b _ orb _ => [b, orb]
   | _ => []
 
 theorem mem_refs_list {items : List Ref} {x : Nat} : x ∈ refsOf (.list items) ↔ Ref.addr x ∈ items := by
